@@ -139,27 +139,27 @@ package observedaddrs
 //@ ensures wfOwn(o)
 //@ ensures wfInj(o)
 //@ ensures sameOtherConns(o, conn)
-//@ ensures conn.IsClosed() ==> sameCounts(o) && sameConns(o)
-//@ ensures nth(manet.ToIP(conn.RemoteMultiaddr()), 1) != nil ==> sameCounts(o) && sameConns(o)
+// closed connections are never credited
+//@ ensures conn.IsClosed() || nth(manet.ToIP(conn.RemoteMultiaddr()), 1) != nil ==> sameCounts(o) && sameConns(o)
 //@ ensures !called(addExternalAddrsUnlocked, 0) ==> sameCounts(o) && sameConns(o)
-//@ ensures called(addExternalAddrsUnlocked, 0) ==> !conn.IsClosed() && has(o.connObservedTWAddrs, conn) && o.connObservedTWAddrs[conn] == observedTW.TW
-//@ ensures called(addExternalAddrsUnlocked, 0) ==> observer == obsKey(conn.RemoteMultiaddr()) && localTWStr == string(conn.LocalMultiaddr()[:2].Bytes()) &&
+// the credit key: (local thin waist of the connection, observed thin waist, observer group of the remote address)
+//@ ensures called(addExternalAddrsUnlocked, 0) ==> !conn.IsClosed() && has(o.connObservedTWAddrs, conn) && o.connObservedTWAddrs[conn] == observedTW.TW &&
+//@         observer == obsKey(conn.RemoteMultiaddr()) && localTWStr == string(conn.LocalMultiaddr()[:2].Bytes()) &&
 //@         observedTWStr == string(observedTW.TW.Bytes()) && arg(addExternalAddrsUnlocked, 0, 2) == observer &&
-//@         arg(addExternalAddrsUnlocked, 0, 3) == localTWStr && arg(addExternalAddrsUnlocked, 0, 4) == observedTWStr
-//@ ensures called(addExternalAddrsUnlocked, 0) ==> (called(removeExternalAddrsUnlocked, 0) <==> old(has(o.connObservedTWAddrs, conn)))
+//@         arg(addExternalAddrsUnlocked, 0, 3) == localTWStr && arg(addExternalAddrsUnlocked, 0, 4) == observedTWStr &&
+//@         (called(removeExternalAddrsUnlocked, 0) <==> old(has(o.connObservedTWAddrs, conn)))
+// the previous report of the connection (if any) is the one withdrawn
 //@ ensures called(removeExternalAddrsUnlocked, 0) ==> called(addExternalAddrsUnlocked, 0) && arg(Bytes, 2, 0) == old(o.connObservedTWAddrs[conn]) &&
 //@         arg(removeExternalAddrsUnlocked, 0, 3) == string(ret(Bytes, 2, 0)) &&
 //@         arg(removeExternalAddrsUnlocked, 0, 1) == observer && arg(removeExternalAddrsUnlocked, 0, 2) == localTWStr
 // (locals and path events must not occur inside old(): they are bound through the quantifier)
-// first observation on this connection: exactly one credit is added
+// first observation on this connection: exactly one credit is added; the observer group is counted once
 //@ ensures called(addExternalAddrsUnlocked, 0) && !called(removeExternalAddrsUnlocked, 0) ==>
-//@         (forall l string, ob string, obs string :: cnt(o, l, ob, obs) == old(cnt(o, l, ob, obs)) + ite(l == localTWStr && ob == observedTWStr && obs == observer, 1, 0))
-//@ ensures called(addExternalAddrsUnlocked, 0) && !called(removeExternalAddrsUnlocked, 0) ==>
+//@         (forall l string, ob string, obs string :: cnt(o, l, ob, obs) == old(cnt(o, l, ob, obs)) + ite(l == localTWStr && ob == observedTWStr && obs == observer, 1, 0)) &&
 //@         (forall l string, ob string, obs string :: l == localTWStr && ob == observedTWStr && obs == observer ==>
-//@             nobs(o, l, ob) == old(nobs(o, l, ob)) + ite(old(cnt(o, l, ob, obs)) == 0, 1, 0))
-//@ ensures called(addExternalAddrsUnlocked, 0) && !called(removeExternalAddrsUnlocked, 0) ==>
+//@             nobs(o, l, ob) == old(nobs(o, l, ob)) + ite(old(cnt(o, l, ob, obs)) == 0, 1, 0)) &&
 //@         (forall l string, ob string :: (l != localTWStr || ob != observedTWStr) ==> nobs(o, l, ob) == old(nobs(o, l, ob)))
-// changed observation: the previous credit (key p) is withdrawn, the new one added
+// changed observation: the previous credit (key arg3 of the remove call) is withdrawn, the new one added
 //@ ensures called(removeExternalAddrsUnlocked, 0) && arg(removeExternalAddrsUnlocked, 0, 3) != observedTWStr ==>
 //@         (forall l string, ob string, obs string :: l == localTWStr && ob == observedTWStr && obs == observer ==> cnt(o, l, ob, obs) == old(cnt(o, l, ob, obs)) + 1)
 //@ ensures called(removeExternalAddrsUnlocked, 0) && arg(removeExternalAddrsUnlocked, 0, 3) != observedTWStr ==>
@@ -168,14 +168,14 @@ package observedaddrs
 //@ ensures called(removeExternalAddrsUnlocked, 0) ==>
 //@         (forall l string, ob string, obs string :: (l != localTWStr || (ob != observedTWStr && ob != arg(removeExternalAddrsUnlocked, 0, 3)) || obs != observer) ==>
 //@             cnt(o, l, ob, obs) == old(cnt(o, l, ob, obs)))
+//@ ensures called(removeExternalAddrsUnlocked, 0) ==>
+//@         (forall l string, ob string :: (l != localTWStr || (ob != observedTWStr && ob != arg(removeExternalAddrsUnlocked, 0, 3))) ==> nobs(o, l, ob) == old(nobs(o, l, ob)))
 //@ ensures called(removeExternalAddrsUnlocked, 0) && arg(removeExternalAddrsUnlocked, 0, 3) != observedTWStr ==>
 //@         (forall l string, ob string, obs string :: l == localTWStr && ob == observedTWStr && obs == observer ==>
 //@             nobs(o, l, ob) == old(nobs(o, l, ob)) + ite(old(cnt(o, l, ob, obs)) == 0, 1, 0))
 //@ ensures called(removeExternalAddrsUnlocked, 0) && arg(removeExternalAddrsUnlocked, 0, 3) != observedTWStr ==>
 //@         (forall l string, ob string, obs string :: l == localTWStr && ob == arg(removeExternalAddrsUnlocked, 0, 3) && obs == observer ==>
 //@             nobs(o, l, ob) == old(nobs(o, l, ob)) - ite(old(cnt(o, l, ob, obs)) == 1, 1, 0))
-//@ ensures called(removeExternalAddrsUnlocked, 0) ==>
-//@         (forall l string, ob string :: (l != localTWStr || (ob != observedTWStr && ob != arg(removeExternalAddrsUnlocked, 0, 3))) ==> nobs(o, l, ob) == old(nobs(o, l, ob)))
 //@ noframe
 
 // connection closed: its record is deleted and its credit withdrawn
@@ -187,8 +187,7 @@ package observedaddrs
 //@ ensures wfInner(o)
 //@ ensures wfOwn(o)
 //@ ensures wfInj(o)
-//@ ensures sameOtherConns(o, conn)
-//@ ensures conn != nil ==> !has(o.connObservedTWAddrs, conn)
+//@ ensures sameOtherConns(o, conn) && (conn != nil ==> !has(o.connObservedTWAddrs, conn))
 //@ ensures !called(removeExternalAddrsUnlocked, 0) ==> sameCounts(o)
 //@ ensures conn != nil && old(has(o.connObservedTWAddrs, conn)) && isTW(conn.LocalMultiaddr()) && nth(manet.ToIP(conn.RemoteMultiaddr()), 1) == nil ==>
 //@         called(removeExternalAddrsUnlocked, 0)
@@ -211,11 +210,7 @@ package observedaddrs
 //@ callsite recordObservationUnlocked#0 requires ret(shouldRecordObservation, 0, 0) && arg(shouldRecordObservation, 0, 1) == conn &&
 //@         arg(shouldRecordObservation, 0, 2) == observed && arg1 == conn && arg2.TW == ret(shouldRecordObservation, 0, 1).TW &&
 //@         arg3.TW == ret(shouldRecordObservation, 0, 2).TW && arg3.TW == observed[:2]
-//@ ensures wfBase(o)
-//@ ensures wfSets(o)
-//@ ensures wfInner(o)
-//@ ensures wfOwn(o)
-//@ ensures wfInj(o)
+//@ ensures wf(o)
 //@ ensures !called(recordObservationUnlocked, 0) ==> sameCounts(o) && sameConns(o)
 //@ noframe
 
@@ -228,7 +223,7 @@ package observedaddrs
 //@ loop 0 invariant len(observerSets) >= 0 && (forall j int :: 0 <= j && j < len(observerSets) ==> observerSets[j] != nil && observerSets[j].ObservedBy != nil &&
 //@         len(observerSets[j].ObservedBy) >= minObservers &&
 //@         (exists ob string :: hasSet(o, localTWStr, ob) && o.externalAddrs[localTWStr][ob] == observerSets[j]))
-//@ ensures len(result) <= maxExternalThinWaistAddrsPerLocalAddr
+//@ ensures len(result) <= 3
 //@ ensures forall j int :: 0 <= j && j < len(result) ==> result[j] != nil && result[j].ObservedBy != nil && len(result[j].ObservedBy) >= minObservers
 //@ ensures forall j int :: 0 <= j && j < len(result) ==> (exists ob string :: hasSet(o, localTWStr, ob) && o.externalAddrs[localTWStr][ob] == result[j])
 //@ modifies nothing
@@ -250,6 +245,7 @@ package observedaddrs
 //@ ensures cacheSep()
 //@ ensures addr == nil ==> result == s.ObservedTWAddr
 //@ ensures forall x *observerSet :: x.ObservedBy == old(x.ObservedBy) && x.ObservedTWAddr == old(x.ObservedTWAddr)
+//@ ensures s.cachedMultiaddrs == old(s.cachedMultiaddrs) || fresh(s.cachedMultiaddrs)
 //@ modifies s.cachedMultiaddrs, contents(s.cachedMultiaddrs)
 
 // AddrsFor: only sets that pass the activation threshold for this local thin waist are turned into addresses, at most three
@@ -262,7 +258,7 @@ package observedaddrs
 //@ loop 0 invariant 0 <= idx0 && idx0 <= len(observerSets) && len(res) == idx0 && cacheSep() && observerSets == ret(getTopExternalAddrs, 0, 0) &&
 //@         (forall j int :: 0 <= j && j < len(observerSets) ==> observerSets[j] != nil && observerSets[j].ObservedBy != nil &&
 //@             len(observerSets[j].ObservedBy) >= ActivationThresh)
-//@ ensures len(addrs) <= maxExternalThinWaistAddrsPerLocalAddr
+//@ ensures len(addrs) <= 3
 //@ ensures addr == nil || !isTW(addr) ==> len(addrs) == 0
 //@ ensures len(addrs) > 0 ==> called(getTopExternalAddrs, 0) && len(addrs) == len(ret(getTopExternalAddrs, 0, 0))
 //@ noframe
@@ -277,15 +273,38 @@ package observedaddrs
 //@ callsite appendInferredAddrs#0 requires arg1 == m && arg1 != nil
 //@ noframe
 
-// appendInferredAddrs (guard level): without a table the activation threshold is used; every address produced comes from a
-// set listed in the table under the thin waist of a listen address, combined with the rest of that listen address
+// appendInferredAddrs (guard level): without a table the activation threshold is used; addresses are produced only for
+// thin-waist listen addresses, by combining a set of the table with the rest of that listen address
 //@ func (o *Manager) appendInferredAddrs
 //@ prop C17
-//@ requires wfSets(o) && cacheSep()
+//@ requires wfSets(o)
+//@ requires cacheSep()
 //@ callsite getTopExternalAddrs#0 requires old(twToObserverSets) == nil && arg1 == localTWStr && arg2 == ActivationThresh
 //@ loop 0 invariant twToObserverSets != nil
 //@ loop 1 invariant cacheSep() && twToObserverSets != nil && (old(twToObserverSets) != nil ==> twToObserverSets == old(twToObserverSets))
-//@ loop 2 invariant cacheSep() && 0 <= idx2 && idx2 <= len(twToObserverSets[string(t.TW.Bytes())])
-//@ callsite cacheMultiaddr#0 requires isTW(a) && t.TW == a[:2] && arg1 == a[2:] && 0 <= idx2 && idx2 < len(twToObserverSets[string(a[:2].Bytes())]) &&
-//@         arg0 == twToObserverSets[string(a[:2].Bytes())][idx2]
+//@ loop 2 invariant cacheSep()
+//@ callsite cacheMultiaddr#0 requires isTW(a) && t.TW == a[:2] && arg1 == a[2:]
 //@ noframe
+
+// wiring: the disconnect notification registered by Start withdraws the closed connection's report
+//@ func (o *Manager) Start
+//@ prop C17
+//@ noframe
+//@ closure 0
+//@ requires wf(o) && mapLenOK(o)
+//@ ensures called(removeConn, 0) && arg(removeConn, 0, 0) == o && arg(removeConn, 0, 1) == c
+//@ ensures c != nil ==> !has(o.connObservedTWAddrs, c)
+//@ noframe
+
+// base case of the invariant: a new manager is well-formed (both maps empty and freshly allocated). That every existing
+// observer set owns its ObservedBy map is a property of the whole heap; it is assumed here and preserved by every function above.
+//@ pred ownAll() = forall s1 *observerSet, s2 *observerSet :: s1 != s2 && s1.ObservedBy != nil ==> s1.ObservedBy != s2.ObservedBy
+//@ func newManagerWithListenAddrs
+//@ prop C17
+//@ requires ownAll()
+//@ ensures result1 == nil && result0 != nil && fresh(result0)
+//@ ensures wfBase(result0) && wfSets(result0) && wfInner(result0) && wfInj(result0) && mapLenOK(result0)
+//@ ensures wfOwn(result0)
+//@ ensures forall c connMultiaddrs :: !has(result0.connObservedTWAddrs, c)
+//@ ensures forall l string, ob string, obs string :: cnt(result0, l, ob, obs) == 0 && nobs(result0, l, ob) == 0
+//@ modifies nothing
